@@ -136,7 +136,7 @@ let show (f : Buffer.t -> 'a -> unit) (r : 'a pres) : string =
     Printf.sprintf "OK %d %s" (List.length rest) (Buffer.contents b)
   | PErr (at, k) -> Printf.sprintf "ERR E %d %s" (List.length at) (kind_s k)
   | PFail (at, k) -> Printf.sprintf "ERR F %d %s" (List.length at) (kind_s k)
-  | PPanic -> "PANIC unwrap"
+  | PPanic s -> "PANIC " ^ (match s with SiteUnwrap -> "unwrap" | SiteNeg -> "negate" | SiteSlice -> "slice")
   | PFuel FLoop -> "FUEL loop"
   | PFuel FDepth -> "FUEL depth"
 
